@@ -95,10 +95,8 @@ func (c *Config) Merge(from interface{}, options ...Option) error {
 	if cfgRoot(other) == cfgRoot(c) {
 		// a Config passed directly is read in place. If it is c itself, a part
 		// of c, or a configuration c is a part of, merging would modify the
-		// source while reading it: merge a snapshot. The snapshot stays
-		// where the source is, references in it are looked up from the root
-		// of the configuration like those of the source.
-		other = cfgSub{other}.cpy(other.ctx).(cfgSub).c
+		// source while reading it: merge a snapshot.
+		other = snapshotOf(other)
 	}
 	return mergeInto(opts, c, other)
 }
@@ -1045,4 +1043,56 @@ func includeWildcard(child *fieldHandlingTree, parent *fieldHandlingTree) (*fiel
 		return nil, err.(Error)
 	}
 	return sub, nil
+}
+
+// snapshotOf returns a copy of c that does not change while the configuration
+// c belongs to is modified. The whole configuration is copied and the copy of
+// c inside it returned: references in the snapshot are looked up from the
+// root of a configuration as it is now, like those of a source taken from a
+// separate, identical configuration.
+func snapshotOf(c *Config) *Config {
+	var chain []*Config // c, its parent, ..., the root
+	for cur := c; cur != nil; cur = cur.Parent() {
+		chain = append(chain, cur)
+		if len(chain) > maxNestingDepth {
+			break
+		}
+	}
+
+	cur := cfgSub{chain[len(chain)-1]}.cpy(context{}).(cfgSub).c
+	for i := len(chain) - 2; i >= 0; i-- {
+		child, parent := chain[i], chain[i+1]
+		var next *Config
+		if parent.fields != nil {
+			for k, v := range parent.fields.dict() {
+				if sub, ok := v.(cfgSub); ok && sub.c == child {
+					if cv, ok := cur.fields.get(k); ok {
+						if cs, ok := cv.(cfgSub); ok {
+							next = cs.c
+						}
+					}
+					break
+				}
+			}
+			if next == nil {
+				copied := cur.fields.array()
+				for j, v := range parent.fields.array() {
+					if sub, ok := v.(cfgSub); ok && sub.c == child && j < len(copied) {
+						if cs, ok := copied[j].(cfgSub); ok {
+							next = cs.c
+						}
+						break
+					}
+				}
+			}
+		}
+		if next == nil {
+			// c is not held by the configuration it names as its parent (a
+			// handle of a setting that has been replaced since): a copy of c
+			// that stays where c is
+			return cfgSub{c}.cpy(c.ctx).(cfgSub).c
+		}
+		cur = next
+	}
+	return cur
 }
